@@ -63,6 +63,8 @@ func init() {
 }
 
 func runC11(p *chk.Prog, r *chk.Report) {
+	// an address a Service gives up is released in the allocator before anything else is tried (CLEAR-BEFORE-ALLOC, shared with C06)
+	c06Clear(p, r)
 	// the additional-family assignment keeps the address already held (GAIN, shared with C03)
 	c03Converge(p, r)
 	c11Sibling(p, r)
